@@ -174,6 +174,20 @@ class SymArray:
     def __mod__(self, o):
         return self._arith(o, lambda a, b: a % b)
 
+    # boolean masks: & | ~ (element-wise)
+    def __and__(self, o):
+        return self._zip(o, lambda a, b: symx.And(a, b) if isinstance(a, Sym) or isinstance(b, Sym) else (bool(a) and bool(b)), "bool")
+
+    __rand__ = __and__
+
+    def __or__(self, o):
+        return self._zip(o, lambda a, b: symx.Or(a, b) if isinstance(a, Sym) or isinstance(b, Sym) else (bool(a) or bool(b)), "bool")
+
+    __ror__ = __or__
+
+    def __invert__(self):
+        return self._map(lambda a: symx.Not(a) if isinstance(a, Sym) else (not bool(a)), "bool")
+
     def __floordiv__(self, o):
         return self._arith(o, lambda a, b: a // b)
 
